@@ -29,6 +29,21 @@ fn main() {
     }
     // panics of the code under test are caught and reported as PANIC; keep stderr quiet
     std::panic::set_hook(Box::new(|_| {}));
+    // a logger that accepts every level and discards the text: the arguments of the log statements of the
+    // code under test are evaluated as they are in a deployed daemon (a panic inside one is a panic)
+    struct Sink;
+    impl log::Log for Sink {
+        fn enabled(&self, _: &log::Metadata) -> bool {
+            true
+        }
+        fn log(&self, record: &log::Record) {
+            let _ = format!("{}", record.args());
+        }
+        fn flush(&self) {}
+    }
+    static SINK: Sink = Sink;
+    let _ = log::set_logger(&SINK);
+    log::set_max_level(log::LevelFilter::Trace);
     let comp = args[1].as_str();
     match args[2].as_str() {
         "gen" => {
